@@ -161,6 +161,23 @@ def insertOverrideProps : List (String × NodeId) → Node → Store → Res (No
           { n with properties := some ((n.properties.getD []) ++ [(name, cid)]),
                    propertyOrder := some ((n.propertyOrder.getD []) ++ [name]) } st
 
+/-- `s.Properties[info.name] = fs; s.PropertyOrder = append(s.PropertyOrder, info.name);
+    if !info.settings["omitempty"] && !info.settings["omitzero"] { s.Required = append(s.Required, info.name) }` -/
+def addFieldE (n : Node) (info : JsonInfo) (fid : NodeId) : Node :=
+  { n with properties := some ((n.properties.getD []).filter (·.1 != info.name) ++ [(info.name, fid)]),
+           propertyOrder := some ((n.propertyOrder.getD []) ++ [info.name]),
+           required := if !info.omitempty && !info.omitzero then some ((n.required.getD []) ++ [info.name]) else n.required }
+
+/-- `fs.Description = tag` -/
+def setDescriptionE (st : Store) (fid : NodeId) (d : String) : Store :=
+  match st.get? fid with
+  | some fn => st.set! fid { fn with description := d }
+  | none => st
+
+/-- disallowedPrefixRegexp `^[^ \t\n]*=` : a description must not start with WORD= -/
+def badDescription (d : String) : Bool :=
+  (d.splitOn "=").length > 1 && !(((d.splitOn "=").headD "").toList.any fun c => c == ' ' || c == '\t' || c == '\n')
+
 /-- one iteration of the loop for a field that is neither anonymous nor skipped: from `info := fieldJSONInfo(field)` on -/
 def fieldStepE (rec : IRecE) (seen : List String) (goName tag : String) (exported : Bool) (ft : GoTypeE)
     (n : Node) (st : Store) : Res (Node × Store) :=
@@ -172,21 +189,21 @@ def fieldStepE (rec : IRecE) (seen : List String) (goName tag : String) (exporte
       | none => .ok (n, st)          -- ignore && fs == nil: skip fields of invalid type
       | some fid =>
         match tagLookup "jsonschema" tag with
-        | some "" => .err
         | some d =>
-          let pre := (d.splitOn "=").headD ""
-          if (d.splitOn "=").length > 1 && !(pre.toList.any fun c => c == ' ' || c == '\t' || c == '\n') then .err
-          else
-            let st := match st.get? fid with
-              | some fn => st.set! fid { fn with description := d }
-              | none => st
-            let props := (n.properties.getD []).filter (·.1 != info.name) ++ [(info.name, fid)]
-            .ok ({ n with properties := some props, propertyOrder := some ((n.propertyOrder.getD []) ++ [info.name]),
-                          required := if !info.omitempty && !info.omitzero then some ((n.required.getD []) ++ [info.name]) else n.required }, st)
-        | none =>
-          let props := (n.properties.getD []).filter (·.1 != info.name) ++ [(info.name, fid)]
-          .ok ({ n with properties := some props, propertyOrder := some ((n.propertyOrder.getD []) ++ [info.name]),
-                        required := if !info.omitempty && !info.omitzero then some ((n.required.getD []) ++ [info.name]) else n.required }, st)
+          if d = "" then .err                       -- empty jsonschema tag on struct field
+          else if badDescription d then .err        -- tag must not begin with 'WORD='
+          else .ok (addFieldE n info fid, setDescriptionE st fid d)
+        | none => .ok (addFieldE n info fid, st)
+
+/-- `override := schemas[field.Type]` for an anonymous field (none: no entry, or a nil one) -/
+def overrideOf (opts : IOpts) (st : Store) (t : GoTypeE) : Option Node :=
+  ((typeNameE t).bind fun nm => Json.lookup nm opts.schemas).bind fun oid => st.get? oid
+
+/-- `skipPath != nil && len(field.Index) >= len(skipPath) && field.Index[:len(skipPath)] == skipPath` -/
+def underSkip (skipPath : Option (List Nat)) (index : List Nat) : Bool :=
+  match skipPath with
+  | some sp => sp.isPrefixOf index
+  | none => false
 
 /-- `for _, field := range reflect.VisibleFields(t) { … }`; the second argument is `skipPath` (none = nil) -/
 def structLoopE (opts : IOpts) (rec : IRecE) (seen : List String) :
@@ -196,7 +213,7 @@ def structLoopE (opts : IOpts) (rec : IRecE) (seen : List String) :
     let n := if n.properties.isNone then { n with properties := some [] } else n
     if f.anonymous then
       -- override := schemas[field.Type]
-      match ((typeNameE f.type).bind fun nm => Json.lookup nm opts.schemas).bind fun oid => st.get? oid with
+      match overrideOf opts st f.type with
       | some on =>
         if on.type != "object" then .err            -- custom schema for embedded struct must have type "object"
         else if !overrideOnlyTypeProps on then .err  -- overrides for embedded fields can have only "Type" and "Properties"
@@ -206,10 +223,7 @@ def structLoopE (opts : IOpts) (rec : IRecE) (seen : List String) :
       | none => structLoopE opts rec seen rest skipPath n st
     else
       -- promoted from a replaced anonymous type?
-      let skip := match skipPath with
-        | some sp => sp.isPrefixOf f.index
-        | none => false
-      if skip then structLoopE opts rec seen rest skipPath n st
+      if underSkip skipPath f.index then structLoopE opts rec seen rest skipPath n st
       else
         Res.bind (fieldStepE rec seen f.goName f.tag f.exported f.type n st) fun (n, st) =>
           structLoopE opts rec seen rest none n st
